@@ -46,7 +46,7 @@ ShapeOK(r) == Observed(r).acc \in {"yes", "no", "tree+error", "?"} /\ (Accepted(
 \* unlimited result, a budget 0 < n < N gives the budget error, and no run takes more than n + 1 steps
 BudgetOK(r, b, rb) ==
   /\ rb.cnt <= b + 1
-  /\ (b >= r.cnt => ~rb.ab /\ Observed(rb) = Observed(r) /\ rb.cnt = r.cnt)
+  /\ (b >= r.cnt => ~rb.ab /\ Observed(rb) = Observed(r) /\ rb.cnt = r.cnt /\ rb.h = r.h)
   /\ (b < r.cnt => rb.ab /\ rb.cnt = b + 1)
 
 Emit ==
@@ -54,7 +54,7 @@ Emit ==
          bud == IF W.budgets THEN [b \in Budgets(r.cnt) |-> Run(inp, b)] ELSE <<>>
      IN /\ Assert(ShapeOK(r), <<"result shape (C10)", inp>>)
         /\ W.budgets => \A b \in Budgets(r.cnt) : Assert(BudgetOK(r, b, bud[b]), <<"budget law (C11)", inp, b>>)
-        /\ PrintT("CASE " \o ToJson([inp |-> inp, obs |-> Observed(r), cnt |-> r.cnt, errs |-> r.errs, seed |-> seed,
+        /\ PrintT("CASE " \o ToJson([inp |-> inp, obs |-> Observed(r), cnt |-> r.cnt, h |-> r.h, errs |-> r.errs, seed |-> seed,
                                      rt |-> IF seed > 0 /\ Len(W.expect) >= seed
                                             THEN Observed(r).acc = "yes" /\ Observed(r).ast = W.expect[seed] ELSE TRUE,
                                      bud |-> IF W.budgets THEN [b \in Budgets(r.cnt) |-> Observed(bud[b])] ELSE <<>>]))
